@@ -26,6 +26,9 @@ type Taint struct {
 	fields map[string]bool // pkg.Type.Field
 	rets   map[*ssa.Function]map[int]bool
 	wire   map[string]bool
+	// apiRoots: entry points whose parameters are peer-controlled (library API
+	// handed peer data directly, e.g. Parse*RvInfo, Unmarshal, Verify)
+	apiRoots map[*ssa.Function]bool
 	changed bool
 }
 
@@ -50,8 +53,13 @@ func untaintedResult(name string) bool {
 	return false
 }
 
-func newTaint(p *Prog, region map[*ssa.Function]bool) *Taint {
-	t := &Taint{p: p, region: region, vals: map[ssa.Value]bool{}, allocs: map[*ssa.Alloc]bool{}, fields: map[string]bool{}, rets: map[*ssa.Function]map[int]bool{}}
+func newTaint(p *Prog, region map[*ssa.Function]bool, apiRoots ...*ssa.Function) *Taint {
+	t := &Taint{p: p, region: region, apiRoots: map[*ssa.Function]bool{}, vals: map[ssa.Value]bool{}, allocs: map[*ssa.Alloc]bool{}, fields: map[string]bool{}, rets: map[*ssa.Function]map[int]bool{}}
+	for _, fn := range apiRoots {
+		if b := p.body(fn); b != nil {
+			t.apiRoots[b] = true
+		}
+	}
 	t.solve()
 	return t
 }
@@ -182,6 +190,10 @@ func (t *Taint) solve() {
 	}
 	for fn := range t.region {
 		for i, prm := range fn.Params {
+			if t.apiRoots[fn] {
+				t.mark(prm)
+				t.markMem(prm)
+			}
 			ts := typeShort(prm.Type())
 			if ts == "net/http.Request" || ts == "net/http.Response" {
 				t.mark(prm)
